@@ -50,7 +50,8 @@ Lemma enc_dop_mux f bp kb kbit kd cases dflt v s :
    do s1 <- enc_dop f kd (VInt key) s;
    let s1 := set_bit s1 0 in
    do s2 <- match st with
-            | Some sd => enc_dop f sd cv (set_cur s1 (e_origin s1 + bp))
+            | Some sd => do s3 <- enc_dop f sd cv (set_cur s1 (e_origin s1 + bp));
+                         Ok (set_cur s3 (Z.max (e_cur s3) (e_cur s1)))
             | None => Ok s1
             end;
    Ok (set_origin s2 orig_origin)).
@@ -69,7 +70,8 @@ Lemma dec_dop_mux f bp kb kbit kd cases dflt s :
      match (match find (mc_applies key) cases with Some c => Some c | None => dflt end) with
      | Some c =>
        do r <- match mc_struct c with
-               | Some sd => dec_dop f sd (dset_cur s1 (d_origin s1 + bp))
+               | Some sd => do r' <- dec_dop f sd (dset_cur s1 (d_origin s1 + bp));
+                            Ok (fst r', dset_cur (snd r') (Z.max (d_cur (snd r')) (d_cur s1)))
                | None => Ok (VDict [], s1)
                end;
        Ok (VList [VStr (mc_name c); fst r], dset_origin (snd r) orig_origin)
@@ -163,7 +165,10 @@ Proof.
   assert (Hmsb : e_msg sb = e_msg s1) by reflexivity.
   assert (Hcsb : e_cur sb = e_cur s1).
   { unfold sb. cbn [set_bit set_cur e_cur e_origin]. rewrite Ho1, Hosa. lia. }
-  exists (set_bit (set_origin s2 (e_origin s)) 0).
+  assert (Hmax : Z.max (e_cur s2) (e_cur s1) = e_cur s2).
+  { pose proof Hend2 as (_ & B2 & _). pose proof Hend1 as (_ & B1 & _). rewrite B2, B1, Hm2, Hmsb, blen_app.
+    pose proof (blen_nonneg (rbytes rs)). lia. }
+  exists (set_bit (set_origin (set_cur s2 (Z.max (e_cur s2) (e_cur s1))) (e_origin s)) 0).
   split; [|split; [|split; [|split; [|split]]]].
   - unfold p, mux_param. cbn [enc_param]. unfold is_required. cbn [pkind_of]. unfold vin in Hl. rewrite Hl.
     cbn [negb orb guard bind]. unfold vget. rewrite Hl. cbn [is_none negb guard bind opt_or0].
@@ -171,13 +176,13 @@ Proof.
     rewrite Hname. cbn [bind].
     cbn [e_cur e_origin set_origin set_bit].
     fold sa. rewrite He1. cbn [bind]. rewrite Hstruct.
-    fold sb. rewrite enc_dop_struct. rewrite He2. cbn [bind]. reflexivity.
-  - pose proof Hend2 as (A & B & C & D). unfold at_end. cbn [set_bit set_origin e_bit e_cur e_msg e_used]. repeat split; auto.
-  - cbn [set_bit set_origin e_warn]. rewrite Hw2. unfold sb. cbn [set_cur set_bit e_warn]. rewrite Hw1. exact Hwsa.
+    fold sb. rewrite enc_dop_struct. rewrite He2. cbn [bind]. cbn [set_bit e_cur]. reflexivity.
+  - pose proof Hend2 as (A & B & C & D). unfold at_end. cbn [set_bit set_origin set_cur e_bit e_cur e_msg e_used]. rewrite Hmax. repeat split; auto.
+  - cbn [set_bit set_origin set_cur e_warn]. rewrite Hw2. unfold sb. cbn [set_cur set_bit e_warn]. rewrite Hw1. exact Hwsa.
   - reflexivity.
-  - cbn [set_bit set_origin e_msg]. rewrite Hm2, Hmsb, Hm1, Hmsa. unfold wbytes. now rewrite app_assoc.
+  - cbn [set_bit set_origin set_cur e_msg]. rewrite Hm2, Hmsb, Hm1, Hmsa. unfold wbytes. now rewrite app_assoc.
   - intros r o lk. unfold p, mux_param. cbn [dec_param]. cbn [opt_or0].
-    cbn [set_bit set_origin e_msg e_cur].
+    cbn [set_bit set_origin set_cur e_msg e_cur].
     change (dset_bit (mkD (e_msg s2 ++ r) o (e_cur s) 0 lk) 0) with (mkD (e_msg s2 ++ r) o (e_cur s) 0 lk).
     rewrite dec_dop_mux. unfold dset_origin, dset_cur, dset_bit. cbn [d_origin d_cur d_msg d_bit d_lkeys].
     replace (e_cur s + 0) with (e_cur sa) by lia.
